@@ -80,18 +80,37 @@ struct sink_state_t
 {
     int                 pass{0}; // 1: index only (tag, count), 2: store the window
     std::vector<rec_t>  recs;    // pass 1: tag + empty v, counts in `counts`
+    int64_t             nnull{0}, nserious{0};
     std::vector<size_t> counts;
     size_t              index{0};
     size_t              wbegin{0}, wend{0};
     const function_t*   function{nullptr};
     int64_t             max_evals{0};
+    int64_t             capacity{0}; // of the bundle: max_size + 1
 };
 
 thread_local sink_state_t g_sink;
 
+// bundle_t::append is about to leave m_size == capacity(): its own `assert(m_size < capacity())` (compiled out in the release
+// build) fails and the NEXT append writes row `m_size` behind the end of m_bundleS / m_bundleE. The run is stopped here
+// (instead of corrupting the heap of the harness process) and reported as a failure of the case.
+struct overflow_t
+{
+    int64_t size, capacity;
+};
+
 bool skipped(const char* tag)
 {
-    return std::strcmp(tag, "state.update_if_better") == 0;
+    // only the sites of the anchored code are replayed (the QP sub-solver of bundle_t::solve logs `program.*`)
+    for (const char* keep : {"bundle.append.begin", "bundle.append.kept", "bundle.append.end", "bundle.solve", "csearch.iter",
+                             "csearch.end", "solver.done", "ellipsoid.iter"})
+    {
+        if (std::strcmp(tag, keep) == 0)
+        {
+            return false;
+        }
+    }
+    return true;
 }
 
 void sink(const char* tag, const double* values, size_t count)
@@ -101,10 +120,19 @@ void sink(const char* tag, const double* values, size_t count)
         return;
     }
     auto& s = g_sink;
+    if (s.capacity > 0 && std::strcmp(tag, "bundle.append.kept") == 0 && count > 0 &&
+        static_cast<int64_t>(values[0]) + 1 >= s.capacity)
+    {
+        throw overflow_t{static_cast<int64_t>(values[0]), s.capacity};
+    }
     if (s.pass == 1)
     {
         rec_t r;
         r.tag = tag;
+        if (r.tag == "bundle.append.begin" && count > 0)
+        {
+            (values[0] != 0.0 ? s.nserious : s.nnull) += 1;
+        }
         s.recs.push_back(std::move(r));
         s.counts.push_back(count);
     }
@@ -210,6 +238,7 @@ solver_state_t run(const case_t& c, int64_t& evals)
     const auto fun    = sharp_t{c.A, c.xs, static_cast<int>(c.norm), c.mu};
     g_sink.function   = &fun;
     g_sink.max_evals  = c.max_evals;
+    g_sink.capacity   = c.solver == "ellipsoid" ? 0 : c.max_size + 1;
     g_sink.index      = 0;
     nano::verif::trace_sink() = &sink;
     try
@@ -454,6 +483,8 @@ std::string run_case(case_t& c, const std::string& line, std::string& aug)
     g_sink.pass  = 1;
     int64_t evals = 0;
     run(c, evals);
+    const auto nnull    = g_sink.nnull;
+    const auto nserious = g_sink.nserious;
     const auto tags   = std::move(g_sink.recs);
     const auto counts = std::move(g_sink.counts);
     const auto N      = tags.size();
@@ -542,12 +573,16 @@ std::string run_case(case_t& c, const std::string& line, std::string& aug)
     }
 
     out_t o;
-    o << "ok" << static_cast<int64_t>(state.status()) << state.fx();
+    const char* status = state.status() == solver_status::converged   ? "converged"
+                       : state.status() == solver_status::max_iters ? "max_iters"
+                       : state.status() == solver_status::failed    ? "failed"
+                                                                    : "other";
+    o << "ok" << status << state.fx();
     {
         std::vector<double> x(state.x().begin(), state.x().end());
         o.flist(x);
     }
-    o << state.fcalls() << state.gcalls() << evals << static_cast<int64_t>(N) << "trace";
+    o << state.fcalls() << state.gcalls() << evals << static_cast<int64_t>(N) << nnull << nserious << "trace";
     project(c, recs, wbegin == 0, o);
     return o.str();
 }
@@ -603,7 +638,21 @@ std::string vh::execute(toks_t& t, std::string& aug)
     {
         throw bad_op("trailing tokens");
     }
-    return run_case(c, line, aug);
+    try
+    {
+        return run_case(c, line, aug);
+    }
+    catch (const overflow_t& e)
+    {
+        out_t o;
+        o << "overflow" << e.size << e.capacity;
+        return o.str();
+    }
+    catch (const std::logic_error& e)
+    {
+        // an internal inconsistency of the harness itself (never expected): reported, not hidden
+        throw bad_op(std::string("harness: ") + e.what());
+    }
 }
 
 int main()
